@@ -1,4 +1,5 @@
 import Mastverif.Lemmas.Heap
+import Mastverif.Lemmas.PtrAtomic
 /-!
 # C12 — an operation that returns an error leaves the tree unchanged (property theorems, partial)
 
@@ -21,57 +22,6 @@ def allocOnly : List Act → Prop
   | [] => True
   | Act.alloc _ :: rest => allocOnly rest
   | _ :: _ => False
-
-theorem getElem?_append_left' {h ext : Heap} {a : Nat} {nd : MNode} (hx : h[a]? = some nd) :
-    (h ++ ext)[a]? = some nd := by
-  have hlt : a < h.length := (List.getElem?_eq_some_iff.mp hx).1
-  rw [List.getElem?_append_left hlt]; exact hx
-
-theorem contents_append (h ext : Heap) : ∀ (fuel : Nat) (l : HLink) (c : List Tok),
-    contents h fuel l = some c → contents (h ++ ext) fuel l = some c := by
-  intro fuel
-  induction fuel with
-  | zero => intro l c hc; cases l <;> simp_all [contents]
-  | succ f ih =>
-    intro l c hc
-    cases l with
-    | nil => simpa [contents] using hc
-    | ref n => simpa [contents] using hc
-    | ptr a =>
-      simp only [contents] at hc ⊢
-      cases hnd : h[a]? with
-      | none => simp [hnd] at hc
-      | some nd =>
-        simp only [hnd] at hc
-        rw [getElem?_append_left' hnd]
-        simp only []
-        have key : ∀ (ls : List HLink) (cs : List (List Tok)),
-            sequenceO (ls.map (contents h f)) = some cs →
-            sequenceO (ls.map (contents (h ++ ext) f)) = some cs := by
-          intro ls
-          induction ls with
-          | nil => intro cs h1; simpa [sequenceO] using h1
-          | cons x xs ihx =>
-            intro cs h1
-            simp only [List.map_cons] at h1 ⊢
-            cases hx : contents h f x with
-            | none => simp [hx, sequenceO] at h1
-            | some cx =>
-              rw [hx] at h1
-              rw [ih x cx hx]
-              simp only [sequenceO] at h1 ⊢
-              cases hrest : sequenceO (xs.map (contents h f)) with
-              | none => simp [hrest] at h1
-              | some crest =>
-                rw [hrest] at h1
-                rw [ihx crest hrest]
-                exact h1
-        cases hseq : sequenceO (nd.links.map (contents h f)) with
-        | none => simp [hseq] at hc
-        | some cs =>
-          rw [hseq] at hc
-          rw [key nd.links cs hseq]
-          exact hc
 
 theorem run_allocOnly_append : ∀ (acts : List Act) (h h' : Heap), allocOnly acts → run h acts = some h' →
     ∃ ext, h' = h ++ ext := by
@@ -113,4 +63,69 @@ example :
   refine ⟨trivial, by decide, by decide⟩
 
 end Mast.Heap
+/-!
+## The statement for the logic of the code (object-level model, `Model/Ptr.lean`)
+
+`Insert` = a *plan* (locate, load and split the child: everything that can fail; only allocates) +
+a *commit* (the in-place writes and `savePathForRoot`: cannot fail) + the growth loop.  `Delete` =
+plan (locate, `mergeNodes`) + commit + the height reduction.  With store loads failing at ANY
+positions (`Env.failAt` is arbitrary):
+-/
+namespace Mast.Ptr
+open Mast.Heap
+
+/-- **Insert**: when the call returns an error, the tree record is unchanged and every level of
+    the contents under its root reads as before (the heap was only extended by objects nothing
+    reaches) — unless the error comes from the growth step after the complete insertion. -/
+theorem C12_insert_error_partial (E : Env) (fuel : Nat) (s : PS) (t : PTree) (key val : Nat)
+    (hinv : Inv t.id s) (hroot : Vis s.heap t.id t.root)
+    (he : (insert E fuel s t key val).2.2 = .err) :
+    ((insert E fuel s t key val).2.1 = t ∧
+      ∀ f l c, contents s.heap f l = some c → contents (insert E fuel s t key val).1.heap f l = some c) ∨
+    (∃ p s1 root s2, insertPlan E t fuel key val s = .ok p s1 ∧ insertCommit t p key val s1 = .ok root s2) := by
+  rcases insert_err E fuel s t key val hinv hroot he with ⟨ha, ht⟩ | h
+  · exact Or.inl ⟨ht, fun f l c hc => contents_allocOnly ha f l c hc⟩
+  · exact Or.inr h
+
+/-- **Delete**: the same; the second alternative (an error of the height reduction after the
+    complete removal) is the recorded known finding, see the witness below. -/
+theorem C12_delete_error_partial (E : Env) (fuel : Nat) (s : PS) (t : PTree) (key val : Nat)
+    (hinv : Inv t.id s) (hroot : Vis s.heap t.id t.root)
+    (he : (delete E fuel s t key val).2.2 = .err) :
+    ((delete E fuel s t key val).2.1 = t ∧
+      ∀ f l c, contents s.heap f l = some c → contents (delete E fuel s t key val).1.heap f l = some c) ∨
+    (∃ p s1 root s2, deletePlan E t fuel key val s = .ok p s1 ∧ deleteCommit t p s1 = .ok root s2) := by
+  rcases delete_err E fuel s t key val hinv hroot he with ⟨ha, ht⟩ | h
+  · exact Or.inl ⟨ht, fun f l c hc => contents_allocOnly ha f l c hc⟩
+  · exact Or.inr h
+
+/-- the parts that write cannot return an error -/
+theorem C12_commit_phases_cannot_fail (t : PTree) (p : InsPlan) (q : DelPlan) (key val : Nat) :
+    NoErr (insertCommit t p key val) ∧ NoErr (deleteCommit t q) :=
+  ⟨insertCommit_noErr t p key val, deleteCommit_noErr t q⟩
+
+/-- **lookups, iterations and clones** never change what any tree holds, whether they fail or not:
+    trees other than a target are untouched by every call, and these calls have no target -/
+theorem C12_reads_change_nothing (E : Env) (fuel : Nat) (σ : Sys) (h : SysInv σ) (op : Op)
+    (hop : op.target = none) (j : Nat) : Untouched σ (σ.apply E fuel op).1 j :=
+  (Sys.apply_ok E fuel σ op h).2.2.1 j (by rw [hop]; simp)
+
+/-- the known finding in the object-level model (kernel-checked): a version of height 1 with
+    top keys 4 and 8 and a child `[3]`, reloaded; `Delete(8)` removes the entry, and the load of the
+    child during the height reduction (the third store load) fails: the call returns an error,
+    the entry is gone, the size is 2 -/
+def kfEnv (ft : Nat) : Env := { layer := fun k => if k % 4 = 0 then 1 else 0, failAt := fun t => t == ft }
+def kfBase : Sys := (Sys.run (kfEnv 1000) 10 {} [.load 0 0 0 2, .ins 0 4 40, .ins 0 3 30, .ins 0 8 80, .flush 0, .load 2 3 1 2]).1
+theorem C12_delete_known_finding_in_the_model :
+    (kfBase.apply (kfEnv 2) 10 (.del 1 8 80)).2 = .err ∧
+    ((kfBase.apply (kfEnv 2) 10 (.del 1 8 80)).1.trees.map
+      (fun t => (contents (kfBase.apply (kfEnv 2) 10 (.del 1 8 80)).1.ps.heap 5 t.root, t.size)))[1]? =
+      some (some [.refn 1, .ent 4 40], 2) := by decide +kernel
+
+end Mast.Ptr
+#print axioms Mast.Ptr.C12_insert_error_partial
+#print axioms Mast.Ptr.C12_delete_error_partial
+#print axioms Mast.Ptr.C12_commit_phases_cannot_fail
+#print axioms Mast.Ptr.C12_reads_change_nothing
+#print axioms Mast.Ptr.C12_delete_known_finding_in_the_model
 #print axioms Mast.Heap.C12_allocations_invisible
